@@ -191,9 +191,10 @@ func literalCandidates(n *Node) []*Node {
 				out = append(out, sLit(s))
 			}
 		}
-	case "bool", "none", "name":
+	case "bool", "none":
 	default:
-		out = append(out, iLit(0), iLit(1), sLit(""), sLit("a"), &Node{K: "list"}, &Node{K: "list", C: []*Node{iLit(1), iLit(2)}},
+		out = append(out, iLit(0), iLit(1), iLit(-1), iLit(2), sLit(""), sLit("a"), &Node{K: "list"}, &Node{K: "list", C: []*Node{iLit(0)}},
+			&Node{K: "list", C: []*Node{iLit(1), iLit(0)}}, &Node{K: "list", C: []*Node{iLit(0), iLit(1)}},
 			&Node{K: "bool", I: 1}, &Node{K: "bool"}, &Node{K: "dict"})
 	}
 	return out
@@ -203,30 +204,97 @@ type shrinker struct {
 	test   func(*Prog) bool // true = still a valid, disagreeing program
 	budget int
 	evals  int
-	seen   map[string]bool // every candidate text is tried at most once (also guarantees termination)
+	cache  map[string]bool // result per candidate text
 }
 
-func (s *shrinker) try(q *Prog) bool {
-	if s.evals >= s.budget {
+// measure is the well-founded order that every accepted step must strictly decrease:
+// (compound constructs, rendered length, sum of literal / operator / statement-kind ranks).
+func measure(p *Prog) [3]int {
+	var m [3]int
+	var walkS func(l []*Node)
+	walkS = func(l []*Node) {
+		for _, st := range l {
+			switch st.K {
+			case "for", "if", "def":
+				m[0] += 2
+			case "aug", "iaug", "expr", "unpack":
+				m[2] += 50
+			}
+			walkS(st.Body)
+			walkS(st.Else)
+		}
+	}
+	walkS(p.Stmts)
+	for _, slot := range exprSlots(p) {
+		n := *slot
+		switch n.K {
+		case "lcomp", "lcomp2", "dcomp", "lambda":
+			m[0]++
+		case "int":
+			m[2] += intRank(n.I)
+			if n.Oct {
+				m[2] += 200
+			}
+		case "str":
+			m[2] += strRank(n.S)
+		case "bin":
+			for _, cl := range opClasses {
+				for k, op := range cl {
+					if op == n.S {
+						m[2] += k
+					}
+				}
+			}
+		case "chaincmp":
+			for _, o := range n.Kw {
+				for k, op := range opClasses[2] {
+					if op == o {
+						m[2] += k
+					}
+				}
+			}
+		}
+	}
+	q := *p
+	q.Export = nil
+	m[1] = len(Render(&q, py, ""))
+	return m
+}
+
+func less(a, b [3]int) bool {
+	for i := range a {
+		if a[i] != b[i] {
+			return a[i] < b[i]
+		}
+	}
+	return false
+}
+
+// try tests a candidate that must be strictly simpler than cur.
+func (s *shrinker) try(q, cur *Prog) bool {
+	if cur != nil && !less(measure(q), measure(cur)) {
 		return false
 	}
 	txt := Render(q, asp, "")
-	if s.seen[txt] {
+	if r, ok := s.cache[txt]; ok {
+		return r
+	}
+	if s.evals >= s.budget {
 		return false
 	}
-	s.seen[txt] = true
 	s.evals++
-	return s.test(q)
+	r := s.test(q)
+	s.cache[txt] = r
+	return r
 }
 
 // Shrink minimises p (which must satisfy test) and returns the smallest program found together with
 // the (possibly changed) observed variable.
 func Shrink(p *Prog, target string, budget int, test func(*Prog) bool) (*Prog, string, int) {
-	s := &shrinker{test: test, budget: budget, seen: map[string]bool{}}
+	s := &shrinker{test: test, budget: budget, cache: map[string]bool{}}
 	cur := p.clone()
 	cur.Export = []string{target}
-	s.seen[Render(cur, asp, "")] = true
-	if q := staticSlice(cur, target); len(q.Stmts) < len(cur.Stmts) && s.try(q) {
+	if q := staticSlice(cur, target); len(q.Stmts) < len(cur.Stmts) && s.try(q, cur) {
 		cur = q
 	}
 	for round := 0; round < 8 && s.evals < s.budget; round++ {
@@ -279,7 +347,7 @@ func (s *shrinker) retargetExport(cur *Prog) *Prog {
 		}
 		q := cur.clone()
 		q.Export = []string{n}
-		if s.try(q) {
+		if s.try(q, nil) {
 			return q
 		}
 	}
@@ -324,10 +392,7 @@ func (s *shrinker) retargetExpr(cur *Prog) *Prog {
 			prefix = cloneList(cur.Stmts[:si])
 			for _, cand := range [][]*Node{{asg}, append(defs, asg), append(prefix, asg)} {
 				q := &Prog{Stmts: cloneList(cand), Export: []string{target}}
-				if len(Render(q, asp, "")) >= len(Render(cur, asp, "")) {
-					continue
-				}
-				if s.try(q) {
+				if s.try(q, cur) {
 					return s.retargetExpr(q)
 				}
 			}
@@ -369,7 +434,7 @@ func (s *shrinker) dropParams(cur *Prog) *Prog {
 					}
 				}
 			}
-			if s.try(q) {
+			if s.try(q, cur) {
 				cur = q
 			}
 		}
@@ -389,12 +454,15 @@ func (s *shrinker) canonStmtKinds(cur *Prog) *Prog {
 				repls = append(repls, []*Node{{K: "assign", S: st.S, C: cloneList(st.C)}})
 			case "iaug":
 				repls = append(repls, []*Node{{K: "iset", S: st.S, C: cloneList(st.C)}})
-			case "expr":
+			case "expr", "unpack":
 				repls = append(repls, []*Node{{K: "assign", S: "w", C: cloneList(st.C)}})
 			case "if":
 				repls = append(repls, []*Node{{K: "assign", S: "w", C: cloneList(st.C)}})
 			case "for":
 				repls = append(repls, []*Node{{K: "assign", S: "w", C: cloneList(st.C)}})
+				if len(st.Names) == 1 && st.C[0].K == "list" && len(st.C[0].C) > 0 && !hasStmtKind(st.Body, "break") && !hasStmtKind(st.Body, "continue") {
+					repls = append(repls, substStmts(st.Body, st.Names[0], st.C[0].C[0]))
+				}
 				if len(st.Names) == 1 && !hasStmtKind(st.Body, "break") && !hasStmtKind(st.Body, "continue") {
 					first := &Node{K: "assign", S: st.Names[0], C: []*Node{{K: "idx", C: []*Node{st.C[0].clone(), iLit(0)}}}}
 					repls = append(repls, append([]*Node{first}, cloneList(st.Body)...))
@@ -407,7 +475,7 @@ func (s *shrinker) canonStmtKinds(cur *Prog) *Prog {
 				nl = append(nl, repl...)
 				nl = append(nl, (*l)[i+1:]...)
 				*l = nl
-				if s.try(q) {
+				if s.try(q, cur) {
 					cur = q
 					break
 				}
@@ -429,7 +497,7 @@ func (s *shrinker) deleteStmts(cur *Prog) *Prog {
 					continue
 				}
 				*l = append(append([]*Node(nil), (*l)[:start]...), (*l)[start+size:]...)
-				if s.try(q) {
+				if s.try(q, cur) {
 					cur = q
 					n = len(*stmtLists(cur)[li])
 				}
@@ -459,7 +527,7 @@ func (s *shrinker) flattenStmts(cur *Prog) *Prog {
 				nl = append(nl, repl...)
 				nl = append(nl, (*l)[i+1:]...)
 				*l = nl
-				if s.try(q) {
+				if s.try(q, cur) {
 					cur = q
 					i--
 					break
@@ -494,34 +562,125 @@ func countAssign(p *Prog, n string) int {
 	return c
 }
 
-// inlineVars substitutes the right-hand side of a once-assigned top-level variable into its uses.
+// inlineVars substitutes the right-hand side of a top-level assignment into the uses of the
+// variable up to (and including the right-hand side of) its next top-level assignment.
 func (s *shrinker) inlineVars(cur *Prog) *Prog {
 	target := cur.Export[0]
 	for i := 0; i < len(cur.Stmts); i++ {
 		st := cur.Stmts[i]
-		if st.K != "assign" || st.S == target || countAssign(cur, st.S) != 1 {
+		if st.K != "assign" {
+			continue
+		}
+		next := -1
+		for j := i + 1; j < len(cur.Stmts); j++ {
+			if cur.Stmts[j].K == "assign" && cur.Stmts[j].S == st.S {
+				next = j
+				break
+			}
+		}
+		if next < 0 && st.S == target {
 			continue
 		}
 		q := cur.clone()
 		rhs := q.Stmts[i].C[0]
-		q.Stmts = append(append([]*Node(nil), q.Stmts[:i]...), q.Stmts[i+1:]...)
-		used := false
-		for _, slot := range exprSlots(q) {
-			if (*slot).K == "name" && (*slot).S == st.S {
-				r := rhs.clone()
-				if r.K == "bin" || r.K == "un" || r.K == "cond" {
-					r.Paren = true
-				}
-				*slot = r
-				used = true
-			}
+		end := len(q.Stmts)
+		if next >= 0 {
+			end = next + 1
 		}
-		if used && s.try(q) {
+		mid := substStmts(q.Stmts[i+1:end], st.S, rhs)
+		if next >= 0 {
+			mid[len(mid)-1].S = st.S // the reassignment's own target is not a use
+		}
+		nl := append([]*Node(nil), q.Stmts[:i]...)
+		nl = append(nl, mid...)
+		nl = append(nl, q.Stmts[end:]...)
+		q.Stmts = nl
+		if s.try(q, cur) {
 			cur = q
 			i--
 		}
 	}
 	return cur
+}
+
+// substExpr returns a copy of n with every occurrence of the variable replaced by repl.
+func substExpr(n *Node, v string, repl *Node) *Node {
+	if n == nil {
+		return nil
+	}
+	if n.K == "name" && n.S == v {
+		r := repl.clone()
+		if r.K == "bin" || r.K == "un" || r.K == "cond" {
+			r.Paren = true
+		}
+		return r
+	}
+	m := n.clone()
+	for i, c := range m.C {
+		m.C[i] = substExpr(c, v, repl)
+	}
+	return m
+}
+
+func substStmts(l []*Node, v string, repl *Node) []*Node {
+	out := make([]*Node, len(l))
+	for i, st := range l {
+		m := st.clone()
+		for j, c := range m.C {
+			m.C[j] = substExpr(c, v, repl)
+		}
+		m.Body = substStmts(st.Body, v, repl)
+		m.Else = substStmts(st.Else, v, repl)
+		out[i] = m
+	}
+	return out
+}
+
+// betaCandidates instantiates a comprehension / map() over a literal with its first element.
+func betaCandidates(n *Node) []*Node {
+	var out []*Node
+	switch {
+	case n.K == "lcomp" && len(n.Names) == 1 && n.C[1] != nil && n.C[1].K == "list" && len(n.C[1].C) > 0:
+		out = append(out, &Node{K: "list", C: []*Node{substExpr(n.C[0], n.Names[0], n.C[1].C[0])}})
+	case n.K == "call" && n.S == "map" && len(n.C) == 2 && n.C[0].K == "lambda" && len(n.C[0].Names) == 1 && n.C[1].K == "list" && len(n.C[1].C) > 0:
+		out = append(out, &Node{K: "list", C: []*Node{substExpr(n.C[0].C[0], n.C[0].Names[0], n.C[1].C[0])}})
+	case n.K == "fstr":
+		lit := ""
+		for i, p := range n.Parts {
+			if i%2 == 0 {
+				lit += p
+			} else {
+				lit += "a"
+			}
+		}
+		out = append(out, sLit(lit))
+	case n.K == "call" && len(n.C) >= 2 && n.S != "map":
+		// sorted/min/max/filter/reduce with a one-argument lambda over a literal: the lambda body on an element
+		var lam, lst *Node
+		for _, c := range n.C {
+			if c != nil && c.K == "lambda" && len(c.Names) == 1 {
+				lam = c
+			} else if c != nil && c.K == "list" && len(c.C) > 0 {
+				lst = c
+			}
+		}
+		if lam != nil && lst != nil {
+			for i, e := range lst.C {
+				if i < 3 {
+					out = append(out, substExpr(lam.C[0], lam.Names[0], e))
+				}
+			}
+		}
+	case n.K == "dcomp" && len(n.Names) == 1 && n.C[2] != nil && n.C[2].K == "list" && len(n.C[2].C) > 0:
+		e := n.C[2].C[0]
+		out = append(out, &Node{K: "dict", C: []*Node{substExpr(n.C[0], n.Names[0], e), substExpr(n.C[1], n.Names[0], e)}})
+	case n.K == "dcomp" && len(n.Names) == 2 && n.C[2] != nil && n.C[2].K == "meth" && n.C[2].S == "items" && n.C[2].C[0].K == "dict" && len(n.C[2].C[0].C) >= 2:
+		k, v := n.C[2].C[0].C[0], n.C[2].C[0].C[1]
+		key := substExpr(substExpr(n.C[0], n.Names[0], k), n.Names[1], v)
+		val := substExpr(substExpr(n.C[1], n.Names[0], k), n.Names[1], v)
+		out = append(out, &Node{K: "dict", C: []*Node{key, val}})
+	}
+	return out
 }
 
 // hoistExprs replaces an expression by one of its sub-expressions or by a canonical literal.
@@ -542,13 +701,17 @@ func (s *shrinker) hoistExprs(cur *Prog) *Prog {
 				}
 			}
 		}
+		cands = append(betaCandidates(n), cands...)
 		if n.K != "int" && n.K != "str" {
 			cands = append(cands, literalCandidates(n)...)
+		}
+		if n.K == "list" && len(n.C) > 0 {
+			cands = append(cands, &Node{K: "list", C: []*Node{iLit(0)}}, &Node{K: "list", C: []*Node{iLit(1), iLit(0)}}, &Node{K: "list", C: []*Node{iLit(0), iLit(1)}})
 		}
 		for _, c := range cands {
 			q := cur.clone()
 			*exprSlots(q)[i] = c.clone()
-			if s.try(q) {
+			if s.try(q, cur) {
 				cur = q
 				i--
 				break
@@ -567,7 +730,7 @@ func (s *shrinker) deleteChildren(cur *Prog) *Prog {
 				if n.C[j] != nil {
 					q := cur.clone()
 					(*exprSlots(q)[i]).C[j] = nil
-					if s.try(q) {
+					if s.try(q, cur) {
 						cur = q
 						n = *exprSlots(cur)[i]
 					}
@@ -587,7 +750,7 @@ func (s *shrinker) deleteChildren(cur *Prog) *Prog {
 			for a, b := 0, len(m.C)-1; a < b; a, b = a+1, b-1 {
 				m.C[a], m.C[b] = m.C[b], m.C[a]
 			}
-			if s.try(q) {
+			if s.try(q, cur) {
 				cur = q
 				n = *exprSlots(cur)[i]
 			}
@@ -604,7 +767,7 @@ func (s *shrinker) deleteChildren(cur *Prog) *Prog {
 				q := cur.clone()
 				m := *exprSlots(q)[i]
 				m.Parts = append(append([]string(nil), m.Parts[:j]...), m.Parts[j+2:]...)
-				if s.try(q) {
+				if s.try(q, cur) {
 					cur = q
 					n = *exprSlots(cur)[i]
 				}
@@ -621,7 +784,7 @@ func (s *shrinker) deleteChildren(cur *Prog) *Prog {
 					m.Kw = append(append([]string(nil), m.Kw[:k]...), m.Kw[k+1:]...)
 				}
 			}
-			if s.try(q) {
+			if s.try(q, cur) {
 				cur = q
 				n = *exprSlots(cur)[i]
 			}
@@ -639,7 +802,7 @@ func (s *shrinker) canonLiterals(cur *Prog) *Prog {
 		for _, c := range literalCandidates(n) {
 			q := cur.clone()
 			*exprSlots(q)[i] = c
-			if s.try(q) {
+			if s.try(q, cur) {
 				cur = q
 				break
 			}
@@ -659,7 +822,7 @@ func (s *shrinker) canonOps(cur *Prog) *Prog {
 					}
 					q := cur.clone()
 					(*exprSlots(q)[i]).Kw[k] = op
-					if s.try(q) {
+					if s.try(q, cur) {
 						cur = q
 						n = *exprSlots(cur)[i]
 						break
@@ -681,7 +844,7 @@ func (s *shrinker) canonOps(cur *Prog) *Prog {
 			for k := 0; k < idx; k++ {
 				q := cur.clone()
 				(*exprSlots(q)[i]).S = cl[k]
-				if s.try(q) {
+				if s.try(q, cur) {
 					cur = q
 					break
 				}
@@ -699,7 +862,7 @@ func (s *shrinker) addParens(cur *Prog) *Prog {
 		if (n.K == "bin" || n.K == "un") && !n.Paren {
 			q := cur.clone()
 			(*exprSlots(q)[i]).Paren = true
-			if s.try(q) {
+			if s.try(q, nil) {
 				cur = q
 			}
 		}
